@@ -239,11 +239,12 @@ Example c05_departure_example :
   snd (step C05Ex.r0 (ODrop 11)) =
   [(12, RError c_CALL 7 [] e_canceled [vstr "callee gone"] []);
    (11, RError c_CALL 8 [] e_canceled [vstr "callee gone"] []);
-   (10, REvent 3 12 [("topic", vuri t_sub_on_delete)] [vid 11; vid 2] []);
-   (10, REvent 3 13 [("topic", vuri t_reg_on_unregister)] [vid 11; vid 24] []);
-   (10, REvent 3 14 [("topic", vuri t_reg_on_delete)] [vid 11; vid 24] []);
-   (12, REvent 4 15 [] [vnat 1] []);
-   (10, REvent 3 16 [("topic", vuri t_on_leave)] [vid 11; vstr "<gen>"; vstr "anonymous"] [])].
+   (10, REvent 3 12 [("topic", vuri t_sub_on_unsubscribe)] [vid 11; vid 2] []);
+   (10, REvent 3 13 [("topic", vuri t_sub_on_delete)] [vid 11; vid 2] []);
+   (10, REvent 3 14 [("topic", vuri t_reg_on_unregister)] [vid 11; vid 24] []);
+   (10, REvent 3 15 [("topic", vuri t_reg_on_delete)] [vid 11; vid 24] []);
+   (12, REvent 4 16 [] [vnat 1] []);
+   (10, REvent 3 17 [("topic", vuri t_on_leave)] [vid 11; vstr "<gen>"; vstr "anonymous"] [])].
 Proof. exact C05Ex.drop11. Qed.
 
 Example c05_sizes_example :
